@@ -226,18 +226,18 @@ theorem step_cases (parse : Bytes → Option Uuid) (s : PState) (op : Op) (h : A
                 · left; exact ⟨_, rfl⟩
                 · left; exact ⟨_, rfl⟩
 
-/-- what a successful `verifies` means -/
-theorem verifies_some (parse : Bytes → Option Uuid) (s : PState) (v : VerifyAttempt) (u : Uuid)
-    (h : verifies parse s v = some u) :
-    v.outerOk = true ∧ ∃ idb k, v.idb = some idb ∧ parse idb = some u ∧ aget s.paired u = some k ∧
+/-- what a successful `verifiesAs` means -/
+theorem verifiesAs_some (parse : Bytes → Option Uuid) (s : PState) (v : VerifyAttempt) (u : Uuid) (idb : Bytes)
+    (h : verifiesAs parse s v = some (u, idb)) :
+    v.outerOk = true ∧ ∃ k, v.idb = some idb ∧ parse idb = some u ∧ aget s.paired u = some k ∧
       v.signer = some k := by
-  unfold verifies at h
+  unfold verifiesAs at h
   split at h
   · cases h
   · next ho =>
     split at h
     · cases h
-    · next idb hidb =>
+    · next idb' hidb =>
       split at h
       · cases h
       · next u' hp =>
@@ -245,8 +245,23 @@ theorem verifies_some (parse : Bytes → Option Uuid) (s : PState) (v : VerifyAt
         · cases h
         · next k hk =>
           split at h
-          · next hs => cases h; exact ⟨by simpa using ho, idb, k, hidb, hp, hk, hs⟩
+          · next hs => cases h; exact ⟨by simpa using ho, k, hidb, hp, hk, hs⟩
           · cases h
+
+theorem backfill_spec (s : PState) (u : Uuid) (idb : Bytes) :
+    (backfill s u idb).1.paired = s.paired ∧ (backfill s u idb).1.props = s.props ∧
+    (∀ u' b, aget s.u2b u' = some b → aget (backfill s u idb).1.u2b u' = some b) ∧
+    ((backfill s u idb).1 = s ∨ (aget s.u2b u = none ∧ (backfill s u idb).1.u2b = aset s.u2b u idb)) := by
+  unfold backfill
+  cases h : aget s.u2b u with
+  | some b => exact ⟨rfl, rfl, fun _ _ hb => hb, Or.inl rfl⟩
+  | none =>
+    refine ⟨rfl, rfl, ?_, Or.inr ⟨rfl, rfl⟩⟩
+    intro u' b hb
+    simp only [aget_aset]
+    by_cases e : u = u'
+    · subst e; rw [h] at hb; cases hb
+    · simp [e, hb]
 
 /-! ### dict keys stay unique -/
 
